@@ -34,13 +34,16 @@ def run(ctx):
         unknown = [c for (role, c) in ops if role == "unknown"]
         partial = [c for c in m.calls if c.matches(r"WriteExt::write$|Write::write$|::write_vectored$|::write_at$|::seek$|::set_len$|::write_fmt$")]
         ctx.check(not partial and not unknown, P, "partial-write", "the scratch file is written only with write_all (no write / seek / set_len / write_fmt): %s" % ([c.name for c in partial + unknown] or "ok"), m.where())
+        # the file's text is map's second parameter (path, contents, params, entries) whatever it is called
+        mp_ = facts.body(m.parent) if m.parent else None
+        CONTENTS = (mp_.locals[2].get("name") if mp_ is not None and mp_.arg_count >= 2 else None) or "file_contents"
         copies, tokens = [], []
         for w in writes:
             ch, root = call_chain(m, w.args[1])
             names = [c.name.split("::")[-1] for c in ch]
             if names[:2] == ["as_bytes", "insertable_reference_string"] or (names[:1] == ["as_bytes"] and any(n == "insertable_reference_string" for n in names[:4])):
                 tokens.append(w)
-            elif names[:2] == ["index", "as_bytes"] and root[0] == "upvar" and _upvar_name(m, root[1]) == "file_contents":
+            elif names[:2] == ["index", "as_bytes"] and root[0] == "upvar" and _upvar_name(m, root[1]) == CONTENTS:
                 rng = single_def(m, op_place(ch[0].args[1])["l"]) if op_place(ch[0].args[1]) else None
                 if rng and rng[1] == "assign" and rng[2]["rv"]["k"] == "agg" and rng[2]["rv"].get("adt", "").endswith("ops::Range"):
                     s_op, e_op = rng[2]["rv"]["ops"]
@@ -95,7 +98,7 @@ def run(ctx):
                 ctx.check(names[:2] == ["character", "position"], P, "copy-end-is-offset", "the in-loop copy ends at entry.position().character() (%s)" % names[:2], W1.where())
                 # tail
                 lens = [c for c in m.calls_to(r"str>::len$|::len$") if call_chain(m, c.args[0])[1][0] == "upvar"]
-                end_ok = el2 is not None and any(c.dst["l"] == el2 or _copy_chain(m, el2, c.dst["l"]) for c in lens if _upvar_name(m, call_chain(m, c.args[0])[1][1]) == "file_contents")
+                end_ok = el2 is not None and any(c.dst["l"] == el2 or _copy_chain(m, el2, c.dst["l"]) for c in lens if _upvar_name(m, call_chain(m, c.args[0])[1][1]) == CONTENTS)
                 ctx.check(end_ok, P, "tail-end-is-len", "the tail copy ends at file_contents.len() (`%s`)" % e2, W2.where())
                 ren = [c for (role, c) in ops if role == "publish"]
                 if ctx.check(len(ren) == 1, P, "anchor|rename", "the rename found", m.where()):
